@@ -10,7 +10,8 @@ RULE = ("mixes of calls (answered, cancelled, timed out, refused as too big, int
         "frame was received before the record was finished (sizes are recomputed from the raw frames of the event log); "
         "plus NetworkInstrumenter driven directly by random operation lists against Model/Instrument.v. non-trivial = the "
         "scenario contains a non-successful RPC or a served call")
-TRUSTED = ["records are attributed through the method name in their tag (each operation uses its own method)"]
+TRUSTED = ["records are attributed through the method name in their tag (each operation uses its own method)",
+           "GoLite refinement (C20_source_*): the generic statement translator in go/gen prints what it walked (unsupported constructs become explicit nodes, proved absent); r.storage.Put is an external call whose only modelled effect is the recorded event; time.Since is an opaque value; the mutex is a pair of counters and one call runs alone; int64 wraps at 2^63"]
 ASSUMPTIONS = []
 
 
